@@ -26,6 +26,22 @@ func gen(t *rapid.T) peng.Case {
 			}
 		}
 	}
+	// calls of methods the servers have no handler for (the request is skipped by the server:
+	// a two-way call ends by its deadline, a one-way call when it is sent)
+	if rapid.IntRange(0, 3).Draw(t, "unhandled") == 0 {
+		k := rapid.IntRange(1, 3).Draw(t, "nUnhandled")
+		for i := 0; i < k; i++ {
+			op := peng.Op{Kind: "call", Thread: rapid.IntRange(0, c.Threads-1).Draw(t, fmt.Sprintf("uThread%d", i)), Behav: map[int]scen.Behaviour{}}
+			op.Call = scen.CallSpec{Kind: "UnhandledRPC", Node: rapid.IntRange(0, c.N-1).Draw(t, fmt.Sprintf("uNode%d", i)), Ctx: "deadline",
+				DeadlineUs: rapid.IntRange(200, 20000).Draw(t, fmt.Sprintf("uDeadline%d", i))}
+			if rapid.IntRange(0, 2).Draw(t, fmt.Sprintf("uOneWay%d", i)) == 0 {
+				op.Call.Kind, op.Call.Ctx = "UnhandledUnicast", "background"
+				op.Call.NoSendWait = rapid.Bool().Draw(t, fmt.Sprintf("uNsw%d", i))
+			}
+			at := rapid.IntRange(0, len(c.Ops)).Draw(t, fmt.Sprintf("uAt%d", i))
+			c.Ops = append(c.Ops[:at], append([]peng.Op{op}, c.Ops[at:]...)...)
+		}
+	}
 	c.GoMaxProcs = rapid.SampledFrom([]int{0, 0, 1, 2, 4}).Draw(t, "gomaxprocs")
 	c.Jitter = peng.GenJitter(t)
 	return c
@@ -81,6 +97,13 @@ func run(c peng.Case) vt.Verdict {
 	if cancelled {
 		classes = append(classes, "cancellations")
 	}
+	for _, op := range c.Ops {
+		if op.Kind == "call" && scen.IsUnhandled(op.Call.Kind) {
+			classes = append(classes, "call-of-method-without-handler")
+			slowqf = true // counts as non-trivial
+			break
+		}
+	}
 	if c.Mgrs[0].MaxSendBytes > 0 {
 		classes = append(classes, "send-size-limit")
 		for _, op := range c.Ops {
@@ -120,7 +143,7 @@ func run(c peng.Case) vt.Verdict {
 func TestProp(t *testing.T) {
 	vt.Main(t, vt.Spec[peng.Case]{
 		ID:           "C09",
-		Rule:         "rapid-generated workloads: 4-40 calls of all 20 kinds from 1-6 threads with barriers on 1-4 reachable servers, cancellations and deadlines at generated instants (1 us - 5 ms), thresholds up to the configuration size, correctable completion, slow quorum functions (up to 20 ms), slow/holding/early-releasing/failing handlers that always return, server streams that send up to 6 replies per node, GOMAXPROCS 1/2/4/default, in 1 of 4 cases a client send-size limit with requests too large to send, in half of the cases seeded jitter at the statement-level yield points of the instrumented runtime; after the workload drains, an RPC with a fresh context to every node must return that node's genuine reply (black-box probe; a failed probe is confirmed by two goroutine dumps 10 s apart); non-trivial (measured) = a stream was re-created after a cancelled send, or a stream call was abandoned with replies outstanding, or a slow quorum function",
+		Rule:         "rapid-generated workloads: 4-40 calls of all 20 kinds from 1-6 threads with barriers on 1-4 reachable servers, cancellations and deadlines at generated instants (1 us - 5 ms), thresholds up to the configuration size, correctable completion, slow quorum functions (up to 20 ms), slow/holding/early-releasing/failing handlers that always return, server streams that send up to 6 replies per node, GOMAXPROCS 1/2/4/default, in 1 of 4 cases a client send-size limit with requests too large to send, in 1 of 4 cases 1-3 calls (two-way with a deadline, or one-way) of methods of another registered service for which the servers have no handler, in half of the cases seeded jitter at the statement-level yield points of the instrumented runtime; after the workload drains, an RPC with a fresh context to every node must return that node's genuine reply (black-box probe; a failed probe is confirmed by two goroutine dumps 10 s apart); non-trivial (measured) = a stream was re-created after a cancelled send, or a stream call was abandoned with replies outstanding, or a slow quorum function, or a request too large to send, or a call of a method without a handler",
 		Gen:          gen,
 		Run:          run,
 		TrackCurrent: true,
